@@ -390,6 +390,7 @@ class DisjunctionMaxMatcher(UnionMatcher):
         return max(self.a.block_quality(), self.b.block_quality())
 
     def skip_to_quality(self, minquality):
+        self._id = None
         a = self.a
         b = self.b
 
